@@ -329,8 +329,9 @@ def _r2(ctx):
 def _r3(ctx):
     prog = ctx.prog
     ctx.rule("R-C05-3", floor=2, what="recording handlers extend all parallel lists by exactly one and return them in order")
+    from ..inline import inlined
     for h in ("_handle_case_a_i", "_handle_case_c_ii"):
-        f = prog.func(D + h)
+        f = inlined(prog, prog.func(D + h), skip=("_proceed_on_primary_branch", "_proceed_on_secondary_branch"))
         unp = [s for s in f.node.body if isinstance(s, ast.Assign) and isinstance(s.targets[0], (ast.List, ast.Tuple)) and
                isinstance(s.value, ast.Name) and s.value.id == "recording_lists"]
         if len(unp) != 1:
@@ -356,7 +357,14 @@ def _r3(ctx):
                   any(isinstance(n, ast.Name) and n.id in names[:10] and isinstance(n.ctx, ast.Store) for n in ast.walk(s))]
         bad = {k: v for k, v in counts.items() if k in names[:10] and v != 1}
         ret = [s for s in f.node.body if isinstance(s, ast.Return)][-1]
-        rl = [n for n in ast.walk(ret.value) if isinstance(n, ast.List) and len(n.elts) == len(names)]
+        rl = [n for n in ast.walk(ret.value) if isinstance(n, (ast.List, ast.Tuple)) and len(n.elts) == len(names)]
+        for nm_ in [x_ for x_ in ast.walk(ret.value) if isinstance(x_, ast.Name)]:      # `lists = [...]` ... `return (point, lists)`
+            ds = [s_ for s_ in f.node.body if isinstance(s_, ast.Assign) and any(isinstance(t_, ast.Name) and t_.id == nm_.id
+                                                                                 for t_ in s_.targets)]
+            if ds and isinstance(ds[-1].value, (ast.List, ast.Tuple)) and len(ds[-1].value.elts) == len(names):
+                rl.append(ds[-1].value)
+        if not rl:
+            raise AnalysisError("%s: the returned recording lists were not found" % h)
         ret_ok = rl and [norm_text(e) for e in rl[0].elts] == names
         if bad or nested:
             ctx.violated(f, unp[0], "%s extends the parallel lists unevenly: %s%s" % (h, bad, " (conditionally)" if nested else ""),
